@@ -552,6 +552,14 @@ func (w *c08World) actions() []sim.Action {
 				continue
 			}
 			acts = append(acts, sim.Action{ID: p.ID, Do: func() {
+				if r.To == w.u.Self.ID {
+					// the node asked itself (accelerated client with its own ID in
+					// the crawled table): fails locally, like a swarm's dial to self
+					s.Count("fault_self_asked")
+					s.Release(p, simnet.Reply{Err: errDialSelf})
+					w.deliveries = append(w.deliveries, c08Delivery{Step: s.Steps, From: r.To, Kind: "rpc-err", RPC: r})
+					return
+				}
 				if b := w.beh[r.To]; b == nil || b.ReqErr {
 					s.Count("fault_rpc_error")
 					s.Release(p, simnet.Reply{Err: errReqFailed})
@@ -573,6 +581,8 @@ func (w *c08World) actions() []sim.Action {
 	}
 	return acts
 }
+
+var errDialSelf = fmt.Errorf("sim: dial to self attempted")
 
 var errSenderTimeout = fmt.Errorf("sim: no answer, the message sender gave up: %w", context.DeadlineExceeded)
 
@@ -986,13 +996,16 @@ func (w *c08World) check() {
 	// every other goroutine of the search is blocked in that step, so a request
 	// that reaches the sender in the same or a later step was issued afterwards.
 	reached := w.reachedStep()
-	nreq, inFlightAtCount, silentAsked, silentCut, silentAbandoned, silentTimedOut := 0, false, false, false, false, false
+	nreq, inFlightAtCount, silentAsked, silentCut, silentAbandoned, silentTimedOut, selfAsked := 0, false, false, false, false, false, false
 	for _, snd := range w.snds {
 		for _, r := range snd.Snapshot() {
 			if !w.isSearchReq(r) {
 				continue
 			}
 			nreq++
+			if r.To == u.Self.ID {
+				selfAsked = true
+			}
 			if b := w.beh[r.To]; b != nil && b.Silent && r.CtxLive {
 				silentAsked = true
 				if reached != 0 && r.SentStep < reached && r.Cancelled {
@@ -1083,6 +1096,16 @@ func (w *c08World) check() {
 	}
 	if silentTimedOut {
 		s.Count("probe_silent_cut_by_timeout")
+	}
+	if selfAsked {
+		// the node itself was among the peers the search fanned out to, and the
+		// channel was closed all the same (check() got here)
+		s.Count("probe_self_among_closest")
+		if w.cancelStep == 0 {
+			s.Count("probe_self_asked_search_closed")
+		} else if w.cancelBusy {
+			s.Count("probe_self_asked_cancelled_search")
+		}
 	}
 	if inFlightAtCount {
 		s.Count("probe_count_with_requests_in_flight")
